@@ -220,7 +220,9 @@ CHECKS = {
              "(preconditions evaluated / index.lock taken and index read, or current tree read / write), with "
              "schedules interleaving any number of them. Proved: in one server process, where the store's lock makes "
              "an operation one step, every schedule of any operations from any prior state is a sequential execution "
-             "(members and every result). Across processes the statement is false and the Lean file carries the "
+             "(members and every result); across processes, for the tree store and operations without preconditions, "
+             "index.lock keeps the write sections apart: every schedule applies the logged writes one after another "
+             "and a refused writer changes nothing (invariant proof). Across processes the full statement is false and the Lean file carries the "
              "witnesses (two conditional updates both succeed; a bare-store create is lost; two members share a UID) "
              "— recorded findings. Tied to /repo by stopping real operations at every yield point and running the "
              "other one there (all single-pre-emption schedules of 6-12 operation pairs, both orders), in threads "
